@@ -72,10 +72,13 @@ pub enum UnixFault {
     Refuse,
     /// the accepting side's data never arrives: the connecting side reads EOF at once
     CloseBeforeWrite,
-    /// only the first `permille`/1000 of the first write arrives, then EOF
-    Truncate { permille: u16 },
-    /// one byte of the first write (at `permille`/1000 of its length) is xor-ed with `xor`
-    Corrupt { permille: u16, xor: u8 },
+    /// the last `drop_tail` bytes of the first write (all of it when shorter) never
+    /// arrive, then EOF. Positions count from the END of the write so that a
+    /// variable-length prefix (the uptime digits) cannot move the fault.
+    Truncate { drop_tail: u32 },
+    /// the byte `from_end` positions before the end of the first write (>= 1;
+    /// the first byte when the write is shorter) is xor-ed with `xor`
+    Corrupt { from_end: u32, xor: u8 },
 }
 
 #[derive(Default)]
@@ -428,8 +431,8 @@ impl Endpoint {
         if self.side == Side::Server && kind == Kind::Unix && !c.fault_applied && !data.is_empty() {
             c.fault_applied = true;
             match c.fault {
-                UnixFault::Truncate { permille } => {
-                    let keep = (data.len() * permille.min(999) as usize / 1000).min(data.len() - 1);
+                UnixFault::Truncate { drop_tail } => {
+                    let keep = data.len().saturating_sub((drop_tail as usize).max(1));
                     dir.buf.extend(&data[..keep]);
                     dir.fin = true;
                     dir.discard = true;
@@ -438,8 +441,8 @@ impl Endpoint {
                     count("unix_fault_truncate");
                     return Poll::Ready(Ok(n));
                 }
-                UnixFault::Corrupt { permille, xor } => {
-                    let at = (data.len() * permille.min(999) as usize / 1000).min(data.len() - 1);
+                UnixFault::Corrupt { from_end, xor } => {
+                    let at = data.len().saturating_sub((from_end as usize).max(1));
                     let mut v = data.to_vec();
                     v[at] ^= if xor == 0 { 1 } else { xor };
                     dir.buf.extend(&v);
